@@ -300,6 +300,64 @@ fn marathon(seed: u64, idx: u64, rolls: usize, rep: &mut Report) {
     }
 }
 
+/// Direct construction over long, piecewise windows: a head from one distribution, then long runs of extreme
+/// bytes (an accumulator that is reduced every N bytes must be reduced in time for the worst run, wherever
+/// in the window that run starts and whatever residue precedes it).  `new` of both types against the exact
+/// definition, for the whole window and for a few prefixes.
+fn construction(seed: u64, idx: u64, rep: &mut Report) {
+    let mut rng = Rng::derive(seed, 171717, idx);
+    let total = *rng.pick(&[11_106usize, 16_384, 32_768, 65_536, 65_536, 131_072, 200_000]);
+    let mut v: Vec<u8> = Vec::with_capacity(total);
+    let shape = rng.below(4);
+    let head_d = *rng.pick(&[Dist::Uniform, Dist::High, Dist::Alt, Dist::Ramp, Dist::Zero, Dist::Low]);
+    let head = match shape {
+        0 => rng.range(0, total.saturating_sub(5553)),
+        1 => rng.range(0, 600),
+        2 => *rng.pick(&[256usize, 257, 5552, 5553, 5554, 5803, 5804]),
+        _ => rng.range(0, total),
+    };
+    for i in 0..head.min(total) {
+        v.push(draw(&mut rng, head_d, i));
+    }
+    // one byte that sets the residue, a gap of zeros, then the extreme run(s)
+    if v.len() < total && rng.chance(1, 2) {
+        v.push(rng.byte());
+        let gap = rng.range(0, 6000).min(total - v.len());
+        v.extend(std::iter::repeat(0u8).take(gap));
+    }
+    while v.len() < total {
+        let run = rng.range(1, 12_000).min(total - v.len());
+        let d = *rng.pick(&[Dist::FF, Dist::FF, Dist::FF, Dist::High, Dist::Uniform, Dist::Zero]);
+        for i in 0..run {
+            v.push(draw(&mut rng, d, i));
+        }
+    }
+    let ctxv = json!({"seed": seed, "construction": idx, "len": total, "shape": shape, "head": head, "head_dist": format!("{head_d:?}")});
+    rep.evaluations += 1;
+    let mut cuts = vec![total];
+    for _ in 0..3 {
+        cuts.push(rng.range(1, total));
+    }
+    for k in cuts {
+        let w = &v[..k];
+        let (_, _, d) = weak_exact(w.iter());
+        let r = guarded(|| (RollingChecksum::new(w).digest(), FastRollingChecksum::new(w).digest()));
+        rep.count("long_windows_constructed", 1);
+        match r {
+            Caught::Ok((f1, f2)) => {
+                if f1 != d {
+                    rep.violation("C17|RollingChecksum::new|digest!=definition", json!({"ctx": ctxv, "prefix": k, "got": format!("{f1:08x}"), "want": format!("{d:08x}")}));
+                }
+                if f2 != d {
+                    rep.violation("C17|FastRollingChecksum::new|digest!=definition", json!({"ctx": ctxv, "prefix": k, "got": format!("{f2:08x}"), "want": format!("{d:08x}")}));
+                }
+            }
+            Caught::Panicked(m) => rep.violation("C17|panic", json!({"case": ctxv, "prefix": k, "panic": m})),
+        }
+    }
+    rep.distinct.insert(format!("construct|s{shape}|{head_d:?}|{}", total / 16_384));
+}
+
 pub fn run(seed: u64, thorough: bool, cases: Option<u64>) -> Report {
     let n = cases.unwrap_or(if thorough { 5000 } else { 320 });
     let mut rep = par_cases(n, |i, r| one_sequence(seed, i, thorough, r));
@@ -307,6 +365,7 @@ pub fn run(seed: u64, thorough: bool, cases: Option<u64>) -> Report {
         exhaustive_corner(&mut rep);
         let (k, rolls) = if thorough { (8u64, 70_000_000usize) } else { (2u64, 30_000_000usize) };
         rep.merge(par_cases(k, |i, r| marathon(seed, i, rolls, r)));
+        rep.merge(par_cases(if thorough { 60_000 } else { 4000 }, |i, r| construction(seed, i, r)));
     }
     rep
 }
